@@ -12,6 +12,8 @@ package runtime
 
 import (
 	"reflect"
+	"runtime"
+	"strings"
 
 	"github.com/open2b/scriggo/ast"
 )
@@ -1070,11 +1072,33 @@ func lastErr(f string) error { return nil }
 // the result is never nil.
 // (The panic-freedom of convertPanic itself needs the VM register invariants
 // and is not claimed yet: its safety obligations go to the unclaimed bucket X00.)
+// specUnhashableKey: the two panics of the Go runtime for a map key of interface
+// type that holds an unhashable value - runtime.errorString "runtime error: hash
+// of unhashable type T" when the key is hashed, and the map implementation's
+// unhashableTypeError "hash of unhashable type: T" on the paths of small maps
+// that look keys up without hashing. Both are runtime errors of the interpreted
+// program ("m[k]", "m[k] = v", "delete(m, k)") and must come back as a
+// *PanicError, not as a fatal error that makes Run panic (C05).
+func specUnhashableKey(msg any) bool {
+	err, ok := msg.(runtime.Error)
+	if !ok {
+		return false
+	}
+	s := err.Error()
+	return strings.HasPrefix(s, "runtime error: hash of unhashable type ") || strings.HasPrefix(s, "hash of unhashable type: ")
+}
+
+// specKeyedMapOp: the instructions that look up a map key supplied by the program.
+func specKeyedMapOp(op Operation) bool {
+	return op == OpMapIndex || op == -OpMapIndex || op == OpSetMap || op == -OpSetMap || op == OpDelete
+}
+
 //@ func (*VM).convertPanic
-//@   props X00 C12 C13
+//@   props X00 C12 C13 C05
 //@   opt puremethods Error
 //@   opt stable VM Function
 //@   requires vm.fn != nil && 1 <= vm.pc && int(vm.pc) <= len(vm.fn.Body)
+//@   ensures[C05] specUnhashableKey(msg) && specKeyedMapOp(old(vm.fn.Body[vm.pc-1].Op)) ==> specIsPanicErr(result)
 //@   ensures[C12] specIsStop(msg) ==> result == msg
 //@   ensures[C13] specIsOut(msg) ==> specIsPanicErr(result) && specPanicMsg(result) == msg && specPanicNext(result) == nil
 //@   ensures[C12] result != nil
